@@ -63,12 +63,19 @@ pub fn cleanup(tag: &str) {
     let _ = std::fs::remove_dir_all(PathBuf::from(base).join(format!("{tag}-{}", std::process::id())));
 }
 
+/// a project file whose text starts with this mark is created as a symbolic link to the path that follows
+pub const SYMLINK_MARK: &str = "\u{0}symlink:";
+
 pub fn materialize(dir: &Path, p: &Project) {
     let _ = std::fs::remove_dir_all(dir);
     for (rel, text) in &p.files {
         let path = dir.join(rel);
         if let Some(parent) = path.parent() {
             std::fs::create_dir_all(parent).unwrap_or_else(|e| crate::report::machinery(&format!("mkdir {parent:?}: {e}")));
+        }
+        if let Some(target) = text.strip_prefix(SYMLINK_MARK) {
+            std::os::unix::fs::symlink(target, &path).unwrap_or_else(|e| crate::report::machinery(&format!("symlink {path:?}: {e}")));
+            continue;
         }
         std::fs::write(&path, text).unwrap_or_else(|e| crate::report::machinery(&format!("write {path:?}: {e}")));
     }
